@@ -136,7 +136,7 @@ func layoutDots(src string, dots map[string]DotsInfo) string {
 			}
 			switch n.tok {
 			case token.COMMA:
-				after := src[n.end:gapEnd(i + 1)]
+				after := src[n.end:gapEnd(i+1)]
 				if !strings.Contains(after, "\n") && i+2 < len(toks) {
 					edits = append(edits, edit{at: n.end, del: len(after), ins: "\n"})
 				}
